@@ -246,7 +246,7 @@ def rotations():
 
 
 def psd_lattice(tier):
-    eig = [0.0, 1e-8, 1e-4, 1.0]
+    eig = [0.0, 1e-8, 1e-4, 1.0, 1.0e4]      # up to (100 m)^2: rank-deficient AND large (eigenvalue rounding noise is relative)
     out = []
     trip = [(a, b, c) for a in eig for b in eig for c in eig if a >= b >= c]
     for k, (a, b, c) in enumerate(trip):
@@ -273,6 +273,12 @@ def gen_cov(tier, seed):
     # a lattice set carrying synthetic uncertainties
     yield {'trans': ['lat', 'small'], 'pt': COV_PTS[0], 'mats': mats, 'sd': [0.01, 0.02, 0.03, 0.004, 0.0005, 0.0006, 0.0007]}
     yield {'trans': ['lat', 'corner085'], 'pt': COV_PTS[1], 'mats': mats, 'sd': [0.5, 0.25, 0.125, 1.0, 0.5, 0.25, 2.0]}
+    # uncertainty objects whose values are (partly) exactly zero while the parameters are not: the input covariance is still
+    # carried through scale and rotation
+    for name, pt in (('small', COV_PTS[0]), ('corner085', COV_PTS[1]), ('axis4p', COV_PTS[3])):
+        yield {'trans': ['lat', name], 'pt': pt, 'mats': mats[::3], 'sd': [0.0] * 7}
+        yield {'trans': ['lat', name], 'pt': pt, 'mats': mats[::3], 'sd': [0.01, 0.02, 0.03, 0.004, 0.0, 0.0, 0.0]}
+        yield {'trans': ['lat', name], 'pt': pt, 'mats': mats[::3], 'sd': [0.0, 0.0, 0.0, 0.0, 0.0005, 0.0, 0.0007]}
 
 
 def ev_cov(case, rec):
